@@ -396,7 +396,7 @@ def run(P, R, tier):
         raise sub_err
     k = 0
     for o in sub.obs:
-        if o.rule == 'C10.c' and ('sub-part' in o.detail):
+        if o.rule == 'C10.c' and ('sub-part' in o.detail or 'renumbering moves' in o.detail):
             k += 1
             R._add('C18.c', (o.path, o.site.split('::')[-1]), None, o.status, 'write-target injectivity: ' + o.detail, construct=o.construct)
     if sub_err is None:
